@@ -1,23 +1,38 @@
-(* gmlc/concurrency/DelayedObjects.hpp (X = long) as a pc automaton.
+(* gmlc/concurrency/DelayedObjects.hpp as a pc automaton.
    Definitions only (no lemmas): this file is extracted and run against the code.
 
-   The only instrumented primitive of the class is `std::mutex promiseLock`; std::promise,
-   std::future and std::map are the real library types and log nothing.  Hence every public
-   method is   invoke ; lock (may block) ; [body, no events] ; unlock + ret.
-   The body runs in real time inside the *lock* step (the C++ thread runs from the grant of
-   the mutex up to the announcement of the unlock), and its effect on the promises is visible
-   to a client that polls a future it holds without taking the mutex.  The model therefore
-   applies the body (`apply`) in the lock step and carries the return value to the unlock step.
+   X is a harness payload { long v } whose COPY constructor is user code: it calls
+   vs::user_call(v) - a scheduling point logged as K_CALL v, which throws vs::VThrow when the
+   case's throw plan names the (global) index of that call.  Moving an X is silent.
+   The instrumented primitives are therefore `std::mutex promiseLock` and the copies of X made by
+   promise::set_value(const X&); std::promise, std::future and std::map are the real library types.
 
-   promise ids = indices into the promise heap (a list of cells); a cell records (ghost) the
-   kind and key it was requested under, and its state Unset | SetV v | Broken.
-   Keys of the two string maps are encoded as integers (the driver turns n into "n<n>"). *)
+     setDelayedValue(key, const X&) : invoke ; lock [lookup] ; (key pending:) CALL [copy, set_value
+                                      completes, promise moved to the used map] ; unlock + ret
+                                      - a throwing copy: CALL+THROW ; unlock + catch, nothing changed
+     setDelayedValue(key, X&&), getFuture, isRecognized, isCompleted, finishedWithValue :
+                                      invoke ; lock [whole body] ; unlock + ret
+     fulfillAllPromises(const X&)   : invoke ; lock ; one CALL per pending promise, int map first, then
+                                      string map, each in key order ; (after the last) clear() ; unlock + ret
+                                      - a throwing copy ends the method at once: the promises satisfied so
+                                      far are satisfied and filed in the used maps, but the pending maps are
+                                      NOT cleared (clear() comes after the loops): they keep moved-from promises.
+   A method body runs, in real time, inside the step that ends at its next scheduling point; its effect
+   on the promises is visible to a client polling a future it holds (no mutex involved).
+
+   promise ids = indices into the promise heap; a cell records (ghost) the kind and key it was
+   requested under, and its state Unset | SetV v | Broken.
+   A moved-from std::promise (no shared state) left behind in a pending map is represented by the id
+   of the - now satisfied - promise that was moved out of it: set_value on either throws
+   std::future_error (no_state / promise_already_satisfied: both K_FAULT) before any copy is made,
+   destroying or overwriting either has no effect; no other operation is ever applied to them.
+   Keys of the string maps are integers n >= 0 (the driver uses the name "n%09d": same order). *)
 From Coq Require Import List Arith ZArith Bool.
 Import ListNotations.
 From GV Require Import Sched Events.
 Local Open Scope Z_scope.
 
-(* ---------- association lists: std::map<key, std::promise<X>> as key -> promise id ---------- *)
+(* ---------- std::map<key, std::promise<X>> : association lists sorted by key ---------- *)
 Definition amap := list (Z * nat).
 Fixpoint afind (key : Z) (m : amap) : option nat :=
   match m with
@@ -26,7 +41,12 @@ Fixpoint afind (key : Z) (m : amap) : option nat :=
   end.
 Definition adel (key : Z) (m : amap) : amap := filter (fun e => negb (fst e =? key)) m.
 Definition ahas (key : Z) (m : amap) : bool := match afind key m with Some _ => true | None => false end.
-Definition aput (key : Z) (p : nat) (m : amap) : amap := (key, p) :: adel key m.   (* m[key] = p *)
+Fixpoint ains (key : Z) (p : nat) (m : amap) : amap :=
+  match m with
+  | [] => [(key, p)]
+  | (k, q) :: r => if key <? k then (key, p) :: m else (k, q) :: ains key p r
+  end.
+Definition aput (key : Z) (p : nat) (m : amap) : amap := ains key p (adel key m).   (* m[key] = p *)
 
 (* ---------- the promise heap ---------- *)
 Inductive pst := Unset | SetV (v : Z) | Broken.
@@ -34,12 +54,14 @@ Inductive pst := Unset | SetV (v : Z) | Broken.
 Record cell := Cell { ckind : bool; ckey : Z; cst : pst }.
 Definition heap_t := list cell.
 
-(* promise::set_value: None = std::future_error(promise_already_satisfied) (or no such promise) *)
+(* promise::set_value: None = std::future_error (thrown before the value is copied) *)
 Definition set_value (q : nat) (v : Z) (h : heap_t) : option heap_t :=
   match nth_error h q with
   | Some (Cell k key Unset) => Some (upd h q (Cell k key (SetV v)))
   | _ => None
   end.
+Definition is_unset (h : heap_t) (q : nat) : bool :=
+  match nth_error h q with Some (Cell _ _ Unset) => true | _ => false end.
 (* ~promise (also: the old value of a move-assigned promise): an unsatisfied promise is broken *)
 Definition drop (q : nat) (h : heap_t) : heap_t :=
   match nth_error h q with
@@ -88,6 +110,7 @@ Definition decode_op (z : list Z) : option op :=
 Definition RV_FAULT := -99.
 Definition b2z (b : bool) : Z := if b then 1 else 0.
 
+(* ---------- the sequential bodies (no copy throws) ---------- *)
 (* for (auto& pr : pendingMap) { pr.second.set_value(v); usedMap[pr.first] = std::move(pr.second); } *)
 Fixpoint fulfill (es : amap) (v : Z) (u : amap) (h : heap_t) : option (amap * heap_t) :=
   match es with
@@ -98,9 +121,24 @@ Fixpoint fulfill (es : amap) (v : Z) (u : amap) (h : heap_t) : option (amap * he
     | Some h1 => fulfill r v (aput key q u) (drop_opt (afind key u) h1)
     end
   end.
+(* the rest of fulfillAllPromises from inside the loop over map k, `rest` still to do; then clear() *)
+Definition finish (v : Z) (k : bool) (rest : amap) (c : cont) : option cont :=
+  if k then
+    match fulfill rest v (used c true) (heap c) with
+    | None => None
+    | Some (u1, h1) => Some (Cont (fun _ => []) (fun k' => if k' then u1 else used c false) h1)
+    end
+  else
+    match fulfill rest v (used c false) (heap c) with
+    | None => None
+    | Some (u0, h0) =>
+      match fulfill (pend c true) v (used c true) h0 with
+      | None => None
+      | Some (u1, h1) => Some (Cont (fun _ => []) (fun k' => if k' then u1 else u0) h1)
+      end
+    end.
 
-(* the body of a method, executed while the caller owns promiseLock:
-   new container, return value, fault (a std::future_error escaped) *)
+(* the body of a method run to completion: new container, return value, fault (std::future_error) *)
 Definition apply (o : op) (c : cont) : cont * Z * bool :=
   match o with
   | GetFuture k key _ =>
@@ -120,13 +158,9 @@ Definition apply (o : op) (c : cont) : cont * Z * bool :=
       end
     end
   | FulfillAll v =>
-    match fulfill (pend c false) v (used c false) (heap c) with
+    match finish v false (pend c false) c with
     | None => (c, RV_FAULT, true)
-    | Some (u0, h0) =>
-      match fulfill (pend c true) v (used c true) h0 with
-      | None => (c, RV_FAULT, true)
-      | Some (u1, h1) => (Cont (fun _ => []) (fun k => if k then u1 else u0) h1, 0, false)
-      end
+    | Some c' => (c', 0, false)
     end
   | IsRecognized k key => (c, b2z (ahas key (pend c k) || ahas key (used c k)), false)
   | IsCompleted k key => (c, b2z (ahas key (used c k)), false)
@@ -157,8 +191,8 @@ Definition fut_ready (h : heap_t) (f : option nat) : Z :=
               end
   end.
 
-(* ~DelayedObjects: lock; set_value(X{}) on everything pending; unlock; then the four maps die.
-   Returns the promise heap afterwards; None = an exception in the destructor (std::terminate). *)
+(* ~DelayedObjects: lock; set_value(X{}) (a move) on everything pending; unlock; then the four maps die.
+   Returns the promise heap afterwards; None = std::future_error in the destructor = std::terminate. *)
 Fixpoint set_all (es : amap) (v : Z) (h : heap_t) : option heap_t :=
   match es with
   | [] => Some h
@@ -174,19 +208,74 @@ Definition destroy (c : cont) : option heap_t :=
     | Some h2 => Some (drop_all (map snd (used c true ++ used c false ++ pend c true ++ pend c false)) h2)
     end
   end.
+(* pending-map entries whose promise is moved-from *)
+Definition stale (c : cont) : nat :=
+  length (filter (fun e => negb (is_unset (heap c) (snd e))) (pend c false ++ pend c true)).
 
 (* ---------- threads ---------- *)
-Inductive pc := Idle | P_lock (o : op) | P_unlock (rv : Z) (flt : bool).
+(* how a critical section ends: normal return, std::future_error escaped, vs::VThrow (a copy threw) escaped *)
+Inductive outc := ORet (rv : Z) | OFault | OExn.
+
+Inductive pc :=
+| Idle
+| P_lock (o : op)                 (* waiting for promiseLock *)
+| P_call (o : op)                 (* setDelayedValue(const X&), key pending: inside set_value, about to copy *)
+| P_ful (v : Z) (k : bool) (key : Z) (q : nat) (r : amap) (done : nat) (c0 : cont)
+                                  (* fulfillAllPromises, loop over map k, about to copy for entry (key,q),
+                                     r still to come; ghost: done = promises satisfied so far by this call,
+                                     c0 = the container when the lock was taken *)
+| P_unlock (out : outc).          (* body over (or abandoned), still owns promiseLock *)
 
 (* slots: the (shared_)futures the client thread holds *)
 Record loc := Loc { prog : list op; at_ : pc; slots : list (option nat) }.
-(* hist (ghost): the critical sections in the order of their lock steps, with the value returned *)
-Record glob := Glob { ct : cont; mtx : option nat; faulted : bool; hist : list (nat * op * Z) }.
+(* plan: indices of the copies that throw; calls: copies made so far.
+   ghost: torn  = some fulfillAllPromises was ended by a throwing copy after it had satisfied a promise;
+          began = the critical sections in the order of their lock steps;
+          hist  = the critical sections in the order in which their bodies ended, with the outcome *)
+Record glob := Glob { ct : cont; mtx : option nat; faulted : bool; plan : list Z; calls : Z;
+                      torn : bool; began : list (nat * op); hist : list (nat * op * outc) }.
 
 Definition O_MTX := 1.
 Definition locks (o : op) : bool := match o with FutReady _ | FutGet _ => false | _ => true end.
 Definition slot_of (l : list (option nat)) (i : nat) : option nat :=
   match nth_error l i with Some f => f | None => None end.
+Definition throws (g : glob) : bool := existsb (Z.eqb (calls g)) (plan g).
+Definition val_of (o : op) : Z := match o with SetValue _ _ _ v => v | FulfillAll v => v | _ => 0 end.
+Definition out_of (rv : Z) (flt : bool) : outc := if flt then OFault else ORet rv.
+Definition log_out (t : nat) (o : op) (p : pc) (h : list (nat * op * outc)) : list (nat * op * outc) :=
+  match p with
+  | P_unlock (ORet rv) => h ++ [(t, o, ORet rv)]
+  | P_unlock OExn => h ++ [(t, o, OExn)]
+  | _ => h
+  end.
+
+(* fulfillAllPromises: advance the iterator to the next promise to satisfy (parking at its copy),
+   or - after both loops - clear() the pending maps; a promise that cannot be set: std::future_error *)
+Definition ful_goto (v : Z) (done : nat) (c0 c : cont) (k : bool) (rest : amap) : cont * pc * bool :=
+  let at_entry (k' : bool) (key : Z) (q : nat) (r : amap) :=
+      if is_unset (heap c) q then (c, P_ful v k' key q r done c0, false) else (c, P_unlock OFault, true) in
+  let fin := (Cont (fun _ => []) (fun k' => if k' then used c true else used c false) (heap c),
+              P_unlock (ORet 0), false) in
+  match rest with
+  | (key, q) :: r => at_entry k key q r
+  | [] => if k then fin else
+          match pend c true with
+          | (key, q) :: r => at_entry true key q r
+          | [] => fin
+          end
+  end.
+
+(* the part of a method that runs in its lock step: container, next pc, fault *)
+Definition enter (o : op) (c : cont) : cont * pc * bool :=
+  match o with
+  | SetValue false k key v =>
+    match afind key (pend c k) with
+    | Some q => if is_unset (heap c) q then (c, P_call o, false) else (c, P_unlock OFault, true)
+    | None => (c, P_unlock (ORet 0), false)
+    end
+  | FulfillAll v => ful_goto v 0 c c false (pend c false)
+  | _ => let '(c', rv, flt) := apply o c in (c', P_unlock (out_of rv flt), flt)
+  end.
 
 Definition tstep (t c : nat) (g : glob) (l : loc) : option (glob * loc * list ev) :=
   match at_ l with
@@ -208,29 +297,69 @@ Definition tstep (t c : nat) (g : glob) (l : loc) : option (glob * loc * list ev
     match mtx g with
     | Some _ => None
     | None =>
-      let '(c', rv, flt) := apply o (ct g) in
+      let '(c', p', flt) := enter o (ct g) in
       let sl' := match o with
                  | GetFuture _ _ sl => upd (slots l) sl (Some (length (heap (ct g))))
                  | _ => slots l
                  end in
-      Some (Glob c' (Some t) (faulted g || flt) (hist g ++ [(t, o, rv)]),
-            Loc (prog l) (P_unlock rv flt) sl', [E K_LOCK O_MTX 0])
+      Some (Glob c' (Some t) (faulted g || flt) (plan g) (calls g) (torn g) (began g ++ [(t, o)])
+                 (log_out t o p' (hist g)),
+            Loc (prog l) p' sl', [E K_LOCK O_MTX 0])
     end
-  | P_unlock rv flt =>
-    Some (Glob (ct g) None (faulted g) (hist g), Loc (prog l) Idle (slots l),
-          E K_UNLOCK O_MTX 0 :: (if flt then [E K_FAULT 0 1] else []) ++ [E K_RET 0 rv])
+  | P_call o =>
+    if throws g then
+      Some (Glob (ct g) (mtx g) (faulted g) (plan g) (calls g + 1) (torn g) (began g) (hist g ++ [(t, o, OExn)]),
+            Loc (prog l) (P_unlock OExn) (slots l), [E K_CALL 0 (val_of o); E K_THROW 0 (calls g)])
+    else
+      let '(c', rv, flt) := apply o (ct g) in
+      let p' := P_unlock (out_of rv flt) in
+      Some (Glob c' (mtx g) (faulted g || flt) (plan g) (calls g + 1) (torn g) (began g) (log_out t o p' (hist g)),
+            Loc (prog l) p' (slots l), [E K_CALL 0 (val_of o)])
+  | P_ful v k key q r done c0 =>
+    if throws g then
+      Some (Glob (ct g) (mtx g) (faulted g) (plan g) (calls g + 1) (torn g || negb (Nat.eqb done 0)) (began g)
+                 (hist g ++ [(t, FulfillAll v, OExn)]),
+            Loc (prog l) (P_unlock OExn) (slots l), [E K_CALL 0 v; E K_THROW 0 (calls g)])
+    else
+      match set_value q v (heap (ct g)) with
+      | None =>
+        Some (Glob (ct g) (mtx g) true (plan g) (calls g + 1) (torn g) (began g) (hist g),
+              Loc (prog l) (P_unlock OFault) (slots l), [E K_CALL 0 v])
+      | Some h1 =>
+        let cc := ct g in
+        let c1 := Cont (pend cc) (setf (used cc) k (aput key q (used cc k))) (drop_opt (afind key (used cc k)) h1) in
+        let '(c', p', flt) := ful_goto v (S done) c0 c1 k r in
+        Some (Glob c' (mtx g) (faulted g || flt) (plan g) (calls g + 1) (torn g) (began g)
+                   (log_out t (FulfillAll v) p' (hist g)),
+              Loc (prog l) p' (slots l), [E K_CALL 0 v])
+      end
+  | P_unlock out =>
+    Some (Glob (ct g) None (faulted g) (plan g) (calls g) (torn g) (began g) (hist g),
+          Loc (prog l) Idle (slots l),
+          E K_UNLOCK O_MTX 0 ::
+          match out with
+          | ORet rv => [E K_RET 0 rv]
+          | OFault => [E K_FAULT 0 1; E K_RET 0 RV_FAULT]
+          | OExn => [E K_CATCH 0 0]
+          end)
   end.
 
 Definition fin (l : loc) : bool := match at_ l, prog l with Idle, [] => true | _, _ => false end.
 
-Definition init (nslots : nat) (progs : list (list op)) : sys glob loc :=
-  Sys (Glob cont0 None false []) (map (fun p => Loc p Idle (repeat None nslots)) progs).
+Definition init (nslots : nat) (pl : list Z) (progs : list (list op)) : sys glob loc :=
+  Sys (Glob cont0 None false pl 0 false [] []) (map (fun p => Loc p Idle (repeat None nslots)) progs).
 
 (* ---------- entry point of the correspondence check ---------- *)
 Fixpoint decode_prog (p : list (list Z)) : list op :=
   match p with
   | [] => []
   | z :: r => match decode_op z with Some o => o :: decode_prog r | None => decode_prog r end
+  end.
+(* cfg = <future slots per client> <indices of the copies that throw>... *)
+Definition init_cfg (cfg : list Z) (progs : list (list (list Z))) : sys glob loc :=
+  match cfg with
+  | n :: pl => init (Z.to_nat n) pl (map decode_prog progs)
+  | [] => init O [] (map decode_prog progs)
   end.
 
 Definition zlen {A} (l : list A) : Z := Z.of_nat (length l).
@@ -245,16 +374,17 @@ Fixpoint thread_lines (h : heap_t) (t : nat) (ls : list loc) : list line :=
   | l :: r => slot_lines h t 0 (slots l) ++ thread_lines h (S t) r
   end.
 
-(* the driver's final(): sizes of the four maps, then `delete container` on the main thread,
-   then the state of every future still held by a client *)
+(* the driver's final(): sizes of the four maps and the number of copies made; then, unless a pending
+   map holds a moved-from promise (the destructor would call std::terminate: reported as `-2 998 n`,
+   container not destroyed), `delete container` on the main thread; then every future still held *)
 Definition final (s : sys glob loc) : list line :=
   let c := ct (gl s) in
-  [-2; 100; zlen (pend c false); zlen (pend c true); zlen (used c false); zlen (used c true)] ::
-  match destroy c with
-  | None => [[-2; 999]]
-  | Some h => thread_lines h 0 (thr s)
-  end.
+  [-2; 100; zlen (pend c false); zlen (pend c true); zlen (used c false); zlen (used c true); calls (gl s)] ::
+  if (0 <? stale c)%nat then [-2; 998; Z.of_nat (stale c)] :: thread_lines (heap c) 0 (thr s)
+  else match destroy c with
+       | None => [[-2; 999]]
+       | Some h => thread_lines h 0 (thr s)
+       end.
 
 Definition run_case (cfg : list Z) (progs : list (list (list Z))) (sched : list (Z * Z)) : list line :=
-  let n := match cfg with n :: _ => Z.to_nat n | [] => O end in
-  run_case_gen glob loc tstep fin (init n (map decode_prog progs)) sched final.
+  run_case_gen glob loc tstep fin (init_cfg cfg progs) sched final.
